@@ -8,7 +8,7 @@ from functools import partial
 from typing import TYPE_CHECKING
 
 # Third Party Imports
-from numpy import finfo, ones_like, spacing, zeros
+from numpy import array, finfo, ones_like, spacing, zeros
 from scipy.integrate import solve_ivp
 
 # Local Imports
@@ -299,7 +299,9 @@ class Celestial(Dynamics, metaclass=ABCMeta):
                 states = states[..., -1]
 
             # Properly reshape states
-            states = states.reshape((*state_shape, n_t)).copy()
+            # [NOTE]: With `t_eval`, `solve_ivp` returns empty lists for `t` & `y` if an event stops the
+            #   integration before the next requested time, so convert before reshaping
+            states = array(states).reshape((*state_shape, n_t)).copy()
 
             # Retrieve time when integration stopped, should auto-exit the loop if fully-integrated
             # [NOTE]: `t_events` / `y_events` hold one array per event, of different lengths as soon as only some
@@ -325,7 +327,7 @@ class Celestial(Dynamics, metaclass=ABCMeta):
 
                 # Properly copies updated state back into full state vector for when
                 # an event occurs on a `times`
-                if current_time == solution.t[-1]:
+                if n_t > 0 and current_time == solution.t[-1]:
                     states[..., -1] = current_state.copy()
 
             # [TODO]: This may not be needed?
